@@ -18,7 +18,7 @@ import ast
 from engine.cfg import call_name, cfg_of
 from engine.errors import AnalysisError
 from engine.repo import walk_no_nested
-from engine.util import calls_in, depends_on, local_assignments, unparse
+from engine.util import calls_in, depends_on, local_assignments, unparse, xsrc
 
 ID = 'C17'
 CH = 'sdc11073.httpserver.compression.CompressionHandler'
@@ -146,7 +146,7 @@ def run(ctx):  # noqa: C901, PLR0912, PLR0915
     ph = repo.func(f'{CH}.parse_header')
     ok, why = _q_zero_excluded(ph.node)
     ctx.ob('C17.R2', 'q=0 excluded', ok, 'parse_header: ' + why, fi=ph)
-    src = unparse(ph.node)
+    src = xsrc(ph)
     ctx.ob('C17.R2', 'default quality', '= 1' in src and 'float(' in src,
            'parse_header: a coding without q-value gets quality 1, a given q-value is parsed as float', fi=ph)
 
@@ -187,7 +187,7 @@ def run(ctx):  # noqa: C901, PLR0912, PLR0915
     # streaming decompressobj does not - then .eof has to be checked
     for q in ('sdc11073.httpserver.compression.GzipCompressionHandler.decompress_payload',):
         fi = repo.func(q)
-        src = unparse(fi.node)
+        src = xsrc(fi)
         one_shot = any(unparse(c.func) == 'zlib.decompress' for c in calls_in(fi.node))
         streaming = 'decompressobj' in src
         eof_checked = '.eof' in src and any(isinstance(n, ast.Raise) for n in walk_no_nested(fi.node))
@@ -203,7 +203,7 @@ def run(ctx):  # noqa: C901, PLR0912, PLR0915
     # ------------------------------------------------------------------ R4
     mkc = repo.func('sdc11073.httpserver.httpreader.mk_chunks')
     dch = repo.func('sdc11073.httpserver.httpreader.HTTPReader._read_dechunk')
-    wsrc, rsrc = unparse(mkc.node), unparse(dch.node)
+    wsrc, rsrc = xsrc(mkc), unparse(dch.node)
     fmt = [n for n in ast.walk(mkc.node) if isinstance(n, ast.FormattedValue) and n.format_spec is not None]
     spec = unparse(fmt[0].format_spec).strip("f'\"") if fmt else None
     radix = None
